@@ -330,8 +330,9 @@ type UndefCase struct {
 	N       int  `json:"n"`
 	K       int  `json:"k"`
 	AsStage bool `json:"as_stage"`
-	InDir   bool `json:"in_dir"` // the reference sits in the task's dir instead of command K
-	Form    int  `json:"form"`   // how the command refers to the variable, see undefForms
+	InDir   bool `json:"in_dir"`                 // the reference sits in the task's dir instead of command K
+	Form    int  `json:"form"`                   // how the command refers to the variable, see undefForms
+	InCond  bool `json:"in_condition,omitempty"` // the reference sits in the task's condition: the task fails, it is not skipped
 }
 
 // the reference in its plain form and inside the constructs in which an undefined variable would
@@ -362,6 +363,9 @@ func runUndef(c UndefCase, dir string) error {
 	if c.InDir {
 		task = task.Set("dir", "{{ .no_such_variable }}")
 	}
+	if c.InCond {
+		task = task.Set("condition", "test -z '{{ .no_such_variable }}'")
+	}
 	cfg := gen.Map{{K: "tasks", V: gen.Map{{K: "tk", V: task}}}, {K: "pipelines", V: gen.Map{{K: "pp", V: gen.List{gen.Map{{K: "task", V: "tk"}}}}}}}
 	os.WriteFile(filepath.Join(dir, "t.yaml"), []byte(gen.YAML(cfg)), 0o644)
 	env := cli.Env{Bin: drv.Bin(), Dir: dir, Home: filepath.Join(dir, "home")}
@@ -374,7 +378,7 @@ func runUndef(c UndefCase, dir string) error {
 		return fmt.Errorf("crashed: exit %d stderr %q", r.Exit, r.Stderr)
 	}
 	var want []string
-	if !c.InDir {
+	if !c.InDir && !c.InCond {
 		for i := 0; i < c.K; i++ {
 			want = append(want, fmt.Sprintf("RAN:%d", i))
 		}
@@ -435,6 +439,24 @@ func TestUndefined(t *testing.T) {
 					drv.Fail(t, "undefined", "", c, "%v; case %s", err, b)
 				}
 			}
+		}
+	}
+	// the reference in the task's condition, for tasks run directly and as a stage
+	for stage := 0; stage < 2; stage++ {
+		k++
+		if k%nsh != idx {
+			continue
+		}
+		c := UndefCase{N: 2, K: 0, AsStage: stage == 1, InCond: true}
+		dir := filepath.Join(root, fmt.Sprint("uc", k))
+		os.MkdirAll(dir, 0o755)
+		b, _ := json.Marshal(c)
+		drv.Eval("undefined-variable", "in-condition")
+		drv.NonTrivial(string(b))
+		err := runUndef(c, dir)
+		os.RemoveAll(dir)
+		if err != nil {
+			drv.Fail(t, "undefined", "", c, "%v; case %s", err, b)
 		}
 	}
 	drv.SetExhaustive()
